@@ -19,6 +19,7 @@ import YashModel.Common.Proto
 import YashModel.Quote.Model
 import YashModel.Quote.Script
 import YashModel.Generated.OptionTable
+import YashModel.Generated.ListingTables
 namespace YashModel.Quote.Listing
 open YashModel.Quote YashModel.Proto
 
@@ -520,6 +521,8 @@ def evalCmd (c : Cmd) : Option (List Effect) :=
         if f = "alias".toList then
           match args with
           | [d, w] => if d = "--".toList then (splitEq w).map fun p => [.alias p.1 p.2] else none
+          -- `alias name=value` (as `command -v` prints it): an operand unless it looks like an option
+          | [w] => if w.head? = some '-' then none else (splitEq w).map fun p => [.alias p.1 p.2]
           | _ => none
         else if f = "trap".toList then
           match args with
@@ -594,6 +597,16 @@ def textVerdict (s : State) : String :=
 /-- `alias -- n1 n2 …` with the names in descending order -/
 def listAliasOperands (s : State) : List Char := ((sortBy (·.1) s.aliases).reverse.map printAlias).flatten
 
+/-- `command -v` on one alias name (yash-builtin/src/command/identify.rs `describe`, non-verbose): a reserved word
+    is categorised as a keyword BEFORE the alias lookup and printed as the bare word; an alias is printed as the
+    command line `alias [-- ]<quoted name>=<quoted value>` (`-- ` iff the name starts with `-`) -/
+def printCommandV (a : List Char × List Char) : List Char :=
+  if Generated.QuoteTables.keywords.contains a.1 then a.1 ++ ['\n']
+  else "alias ".toList ++ (if a.1.head? = some '-' then "-- ".toList else []) ++ quote a.1 ++ ['='] ++ quote a.2 ++ ['\n']
+
+/-- `command -v -- n1 n2 …` with the alias names in descending order -/
+def listCommandV (s : State) : List Char := ((sortBy (·.1) s.aliases).reverse.map printCommandV).flatten
+
 /-- `typeset -p -- n1 n2 …` (names in descending order; names containing `=` cannot be operands) -/
 def listTypesetOperands (s : State) : List Char :=
   (((sortBy (·.name) s.vars).reverse.filter (!·.name.contains '=')).map (printVar "typeset" typesetOpts false)).flatten
@@ -637,6 +650,10 @@ def applyOp (s : State) (op : String) : Option State :=
   | ["l", n, v] => do pure (s.setAlias (← decChars n) (← decChars v))
   | ["lg", n, v] => do pure (s.setAlias (← decChars n) (← decChars v))
   | ["t", c, a] => do pure (s.setTrap c (← decChars a))
+  | ["tn", c, n, a] =>
+    -- the condition was given by NUMBER: it must be the number the sources give that name (0 = EXIT)
+    if (c = "EXIT" && n = "0") || (Generated.ListingTables.virtualSignals.any fun p => p.1 = c && toString p.2 = n)
+    then do pure (s.setTrap c (← decChars a)) else none
   | ["m", m] => (parseOctal3 m.toList).map fun u => { s with umask := u }
   | ["o", o, st] => some (s.setOpt o.toList (st = "1"))
   | [k, n, _] => if k = "f" || k = "fq" || k = "fk" then do pure (s.setFn (← decChars n) false) else none
@@ -651,6 +668,6 @@ def runL (ops : List String) : String :=
   | none => "bad-case\t-"
   | some s =>
     let e (l : List Char) := encChars l
-    s!"A={e (listAlias s)} V={e (listTypeset s)} X={e (listExport s)} R={e (listReadonly s)} S={e (listSet s)} T={e (listTrap s)} U={e (listUmask s)} O={e (listSetO s)} Ao={e (listAliasOperands s)} Vo={e (listTypesetOperands s)} Tc={e (listTrapP s)} Oh={e (listSetOHuman s)} Us={e (listUmaskS s)} Ts={e (listTrap s.enterSubshell)} Tk={e (listTrap s.enterSubshell)} Tq={e (listTrap s.enterSubshell)} As={e (listAlias s)} Vs={e (listTypeset s)} Os={e (listSetO s)} Fa={e (listFnAttr s)}\t{if stateVerdict s != "ok" then stateVerdict s else textVerdict s}"
+    s!"A={e (listAlias s)} V={e (listTypeset s)} X={e (listExport s)} R={e (listReadonly s)} S={e (listSet s)} T={e (listTrap s)} U={e (listUmask s)} O={e (listSetO s)} Ao={e (listAliasOperands s)} Vo={e (listTypesetOperands s)} Tc={e (listTrapP s)} Oh={e (listSetOHuman s)} Us={e (listUmaskS s)} Ts={e (listTrap s.enterSubshell)} Tk={e (listTrap s.enterSubshell)} Tq={e (listTrap s.enterSubshell)} As={e (listAlias s)} Vs={e (listTypeset s)} Os={e (listSetO s)} Cv={e (listCommandV s)} Fa={e (listFnAttr s)}\t{if stateVerdict s != "ok" then stateVerdict s else textVerdict s}"
 
 end YashModel.Quote.Listing
